@@ -1,9 +1,14 @@
 """C11 — whatever the indexer tokenizes, the query language can find.
 
-Spec: Tokenize.tla.  Values are sequences of character classes (24 classes: ASCII lower/upper/digit, '_', '*',
+Spec: Tokenize.tla.  Values are sequences of character classes (30 classes: ASCII lower/upper/digit, '_', '*',
 separators, '/', the three quote characters, backslash, non-ASCII letters with same-width and different-width lower
 case, non-ASCII digits/numbers/symbols of 2 and 3 bytes, 4-byte letters (uncased / cased), digits and symbols, invalid
-byte).  The module transcribes the mapping conversion (seq/mapping.go: the DECLARED mapping - old `type:` form or
+byte; and the bytes the indexer takes verbatim while some spelling of a string literal gives them a meaning of their own,
+one class per reason: carriage return (dropped from a raw string by the Go rules), newline (illegal in a Go "..." literal),
+tab/VT/FF, NUL, the other control bytes, and U+E000 which the lexer itself uses for the wildcard).  A literal is written in
+seven styles: "..." / '...' with the necessary escapes, `...`, bare, "..." with U+FFFD for invalid bytes, "..." with EVERY
+character spelled by an escape code of strconv.UnquoteChar (mnemonic, octal, \\x, \\u, \\U) and '...' with the control bytes
+spelled by their codes.  The module transcribes the mapping conversion (seq/mapping.go: the DECLARED mapping - old `type:` form or
 `types:` list, field at top level or inside an object / tags / nested element, single- or multi-type - is converted
 into the map both sides read), the index side (bulk indexer incl. decodeTags and nested metas + keyword/path/text
 tokenizers at BYTE level, with size limits, partial indexing with runeAlignedCut, case folding) and the query side
@@ -11,9 +16,10 @@ tokenizers at BYTE level, with size limits, partial indexing with runeAlignedCut
 matching) and states, independently of all three, which own-content queries the property demands to succeed.  TLC
   (a) decides at class level OwnContentFindsIt, NoUnproducibleToken, RenderLexRoundTrip, LowerShortcutSound, NoCutRune
       (partial indexing cuts between characters of every width 1..4 wherever the limit falls) and CutIgnoresIvKind for
-      every state of the scope (exhaustive small scopes + seeded -simulate for values of 3-5 characters); two mutants of
+      every state of the scope (exhaustive small scopes + seeded -simulate for values of 3-5 characters); four mutants of
       the specification (look-back of the cut one byte short; main type of a multi-type field titled with the bare
-      name) must be rejected, and
+      name; a raw literal valued by the Go rules, i.e. without its carriage returns; a lexer without escape codes) must
+      be rejected, and
   (b) emits every state as a case; the Go driver `tokenize` picks concrete characters per class (seeded palette),
       writes the declared mapping as YAML and converts it with the REAL seq.ReadMapping, takes the tokens from the REAL
       bulk.Ingestor, builds every query from the units TLC rendered, parses it with the REAL parser.ParseSeqQL and
@@ -28,7 +34,9 @@ LEVEL = "model_checking"
 INVS = "OwnContentFindsIt, NoUnproducibleToken, RenderLexRoundTrip, LowerShortcutSound, NoCutRune, CutIgnoresIvKind"
 # mutants of the specification TLC must reject (the invariants are not vacuous for the cut / the mapping conversion)
 MUTANTS = [("Tokenize_mut_lookback.cfg", "runeAlignedCut looking back UTFMax-2 bytes"),
-           ("Tokenize_mut_title.cfg", "main type of a multi-type field titled with the element's own name")]
+           ("Tokenize_mut_title.cfg", "main type of a multi-type field titled with the element's own name"),
+           ("Tokenize_mut_rawcr.cfg", "raw literal valued by the Go rules (strconv.Unquote discards carriage returns)"),
+           ("Tokenize_mut_code.cfg", "lexer that does not know the escape codes of strconv.UnquoteChar")]
 
 
 def run(ctx):
@@ -39,6 +47,7 @@ def run(ctx):
         plan = [("full2", "Tokenize_full2.cfg", 0, 0, 2, 40),
                 ("cont2", "Tokenize_cont2.cfg", 0, 0, 2, 10),
                 ("quote3", "Tokenize_quote3.cfg", 0, 0, 2, 20),
+                ("ctl3", "Tokenize_ctl3.cfg", 0, 0, 2, 20),
                 ("sim", "Tokenize_sim.cfg", 900, 8, 2, 10)]
     else:
         plan = [("named2", "Tokenize_named2.cfg", 0, 0, 0, 0),      # the invariants by name, no emission
@@ -49,6 +58,9 @@ def run(ctx):
                 ("wide4", "Tokenize_wide4.cfg", 0, 0, 2, 400),
                 ("case3", "Tokenize_case3.cfg", 0, 0, 3, 60),
                 ("quote3", "Tokenize_quote3.cfg", 0, 0, 3, 20),
+                ("ctl3", "Tokenize_ctl3.cfg", 0, 0, 4, 20),
+                ("ctl4", "Tokenize_ctl4.cfg", 0, 0, 3, 50),
+                ("contc3", "Tokenize_contc3.cfg", 0, 0, 3, 50),
                 ("full3a", "Tokenize_full3a.cfg", 0, 0, 2, 200),
                 ("full3b", "Tokenize_full3b.cfg", 0, 0, 2, 200),
                 ("full3m", "Tokenize_full3m.cfg", 0, 0, 2, 200),
@@ -126,18 +138,23 @@ def run(ctx):
         "element, single-type in the old `type:` or the `types:` form or multi-type text+keyword+path with the main type first or last; "
         "type keyword/text/path/exists, "
         "case-sensitive on/off, MaxTokenSize and per-field size at EVERY byte position 1..len and unlimited, partial indexing on/off). "
-        "Exhaustive: all sequences of <= 2 of the 24 classes (widths 1-4 bytes) at top level and inside an object (single- and "
-        "multi-type), all sequences of <= 2 of {lo,up,sp,sl,dq,bs,d3,l4,s4,iv} inside tags / nested elements; length 3 over the quoting "
-        "alphabet {lo,st,sp,dd,dq,sq,bt,bs}"
+        "Exhaustive: all sequences of <= 2 of the 30 classes (widths 1-4 bytes; incl. the control-byte classes cr,lf,ws,z0,cc and "
+        "U+E000) at top level and inside an object (single- and "
+        "multi-type), all sequences of <= 2 of {lo,up,sp,sl,dq,bs,d3,l4,s4,iv,cr,lf,z0} inside tags / nested elements; length 3 over the "
+        "quoting alphabet {lo,st,sp,dd,dq,sq,bt,bs} and over the control alphabet {lo,cr,lf,ws,z0,cc,pu,bs,st,dq}"
         + ("" if quick else "; thorough: length 3 over the width alphabet {lo,up,sl,nl,d3,l4,u4,s4,iv} and length 4 over {lo,sl,d3,l4,u4,s4} "
         "with every limit, length 3 over the case/width alphabet {lo,up,sl,nu,d2,d3,iv}, all length-3 sequences over the 20 classes of "
         "width <= 3 (flat with every limit; multi-type, object member, multi-type object member), length 3 over the 10-class alphabet "
-        "inside tags / nested elements, length 4 over the two sub-alphabets")
+        "inside tags / nested elements, length 4 over the two sub-alphabets, length 4 over {lo,cr,lf,z0,cc,bs,st}, length 3 over "
+        "{lo,sl,bs,cr,lf,ws,z0,cc,pu} inside an object / tags / nested element with every limit")
         + "; seeded -simulate: random values of length "
         "3, 4 and 5 over all classes with a random configuration incl. word limit x field limit. Each case is instantiated with `reps` "
-        "seeded palette strings; every probe is asked in every admissible style (double/single/back-quoted, bare, U+FFFD-substituted). "
+        "seeded palette strings; every probe is asked in every admissible style (double/single/back-quoted, bare, U+FFFD-substituted, double-quoted with every "
+        "character spelled by an escape code - the customary spelling in the first rep, a drawn one of mnemonic/octal/\\x/\\u/\\U afterwards - "
+        "and single-quoted with the control bytes spelled by their codes); the single-member classes cr, lf, z0, U+E000 make the "
+        "meeting of each of these bytes with each style deterministic, ws and cc are drawn from all their members. "
         "TLC checks the six invariants in one pass per state (CheckAndEmit; by name in Tokenize_named2.cfg, thorough tier) and must "
-        "reject the two mutant cfgs. The mapping every real component reads is the one the real seq.ReadMapping makes of the declared one. "
+        "reject the four mutant cfgs. The mapping every real component reads is the one the real seq.ReadMapping makes of the declared one. "
         "evaluations = real ParseSeqQL+pattern.Search runs; non-trivial = case with more demanded content queries than existence queries; "
         "every k-th case also runs through a real store (e2e_documents, each query on the active and the sealed fraction).")
     ctx.assumptions += [
@@ -150,8 +167,9 @@ def run(ctx):
         "(the repaired code, like the transcription, indexes the whole-rune prefix: NoCutRune)",
         "the empty text value and words longer than MaxTokenSize are not demanded to be findable (the property speaks of indexed words)",
         "unquoted style: the letters n/N are left out of the ASCII palette because a bare value `in` is the in(...) keyword",
-        "escapes other than \\\\, \\<quote>, \\* and the lenient keep-the-backslash path of unquotePrefix are outside the model "
-        "(the renderer never produces them); array/object/null JSON leaf values are not covered; a tags / nested element is "
+        "ill-formed escapes and the lenient keep-the-backslash path of unquotePrefix are outside the model (the renderer never "
+        "produces them); \\x and octal codes are used for ASCII only (for larger values Go means a byte, the lexer appends a rune); "
+        "the document carries a control byte as a JSON escape (two-character form where JSON has one / \\u00XX, by rep); array/object/null JSON leaf values are not covered; a tags / nested element is "
         "covered with string-valued members (one nested element per document, found = one of its metas satisfies the query); "
         "a mapping item that has both `types:` and a container type, and containers inside containers, are not covered",
         "tokens are read from the metas the real bulk.Ingestor passes to its StorageClient; the end-to-end sub-sample forwards the "
